@@ -225,6 +225,14 @@ impl World {
                     }
                 }
             }
+            TSpec::Exposed { unit } => {
+                let ru: &'static RUnit = self.runit_ptr.get(*unit).copied().flatten().map(|p| unsafe { &*p }).ok_or_else(|| BuildErr::Bad(format!("no by-reference unit {}", unit)))?;
+                match crate::shape::expose_owned(ru) {
+                    // as it must be: an owned collection shows its members to nobody
+                    None => Err(BuildErr::Rejected),
+                    Some((refs, _route)) => BoxedLockCollection::try_new(refs).map(|c| Node::Slice(crate::shape::SNode::BoxedV(c))).ok_or(BuildErr::Rejected),
+                }
+            }
             TSpec::Slice { kind, boxed, members, poison } => {
                 let mut refs: Vec<&'static Leaf> = Vec::new();
                 for l in members {
